@@ -173,10 +173,11 @@ pub fn emplace_flex<'b, T: ZooMsg + ?Sized, L: Flat + vec::Length>(bytes: &'b mu
     FlexVec::<T, L>::new_in_place(bytes, flex::FromIterator::new(v.list().iter().map(|x| emp::<T>(x))))
 }
 pub fn gen_flex<T: ZooMsg + ?Sized>(g: &mut Gen) -> Val {
-    let n = g.len().min(6);
+    let bm = crate::val::boundary_mode();
+    let n = if bm != 0 { 1 + g.pick(2) as usize } else { g.len().min(6) };
     // items are usually tiny; with few items they may be as large as the scale allows (offsets at
     // the maximum of the offset type)
-    let inner_scale = if n <= 2 && g.chance(1, 3) { g.scale } else { g.scale.min(4) };
+    let inner_scale = if bm != 0 || (n <= 2 && g.chance(1, 3)) { g.scale } else { g.scale.min(4) };
     Val::L((0..n).map(|_| T::gen(&mut Gen::new(g.d, g.st, inner_scale))).collect())
 }
 
